@@ -519,6 +519,89 @@ def c12k(ctx, prog):
                      "reverse post-order): the four readers serve one writer family and must agree on test polarity, masks, step and the overflow guard" % (w, i))
 
 
+def c12l(ctx, prog):
+    """Raw reads (`Read::read_exact`) into a buffer that outlives the read.  (1) A read that sits in a loop and targets the
+    whole buffer or a prefix range (`buf[..n]`, no moving start) of a buffer created outside the loop overwrites the same
+    bytes on every iteration: lengths up to one chunk decode, longer ones silently yield the last chunk followed by
+    zeroes.  (2) The length-driven primitive `read_raw_bytes(len)` sizes its buffer by the requested length itself."""
+    o = ctx.ob("C12.l", "raw-reads/every-iteration-fills-fresh-bytes", "K2+K5", "no read_exact in a loop targets the whole / a prefix of a loop-carried buffer; read_raw_bytes sizes its buffer by `len`")
+    n = 0
+    for b in prog.all_bodies(["qbice_serialize", "qbice_storage", "qbice"]):
+        for s_ in b.calls_to(r"io::Read::read_exact$"):
+            n += 1
+            ctx.touch(b)
+            cyc = b.reachable(b.successors(s_.bb))
+            if s_.bb not in cyc:
+                continue
+            # walk the destination back to the buffer: reborrows, deref_mut (whole), index_mut (range)
+            cur, kind, seen = op_local(s_.node["args"][1]), "whole", set()
+            buf_site = None
+            while cur is not None and cur not in seen:
+                seen.add(cur)
+                ds = b.defs.get(cur) or []
+                if len(ds) != 1:
+                    break
+                site, dk, dn = ds[0]
+                if dk == "call":
+                    path = dn["fn"]["path"]
+                    if path.endswith("IndexMut::index_mut"):
+                        rty = b.local_ty(op_local(dn["args"][1])) if op_local(dn["args"][1]) is not None else ""
+                        kind = "prefix" if re.search(r"range::(RangeTo|RangeToInclusive|RangeFull)\b", rty) else "moving"
+                        cur = op_local(dn["args"][0])
+                        continue
+                    if path.endswith("DerefMut::deref_mut") or path.endswith("as_mut_slice") or path.endswith("AsMut::as_mut"):
+                        cur = op_local(dn["args"][0])
+                        continue
+                    buf_site = site
+                    break
+                rv = dn["rv"]
+                if rv["k"] == "ref":
+                    base = rv["pl"][0]
+                    if not rv["pl"][1] and b.local_ty(base).startswith(("alloc::vec::Vec<", "[u8;")) or (not rv["pl"][1] and not (b.defs.get(base) or [])):
+                        # `&mut buf`: the buffer itself; where is it created?
+                        bd = [x for x in (b.defs.get(base) or []) if x[1] in ("call", "assign")]
+                        created_in_loop = bool(bd) and all(x[0].bb in cyc for x in bd[:1])
+                        buf_site = bd[0][0] if bd else None
+                        # a scratch buffer that is copied out inside the loop is fine: only a buffer that IS the result counts
+                        import json as _json
+                        flows, work = set(), [0]
+                        while work:           # locals whose value is moved / copied (possibly through temporaries) into the return place
+                            l_ = work.pop()
+                            for _s3, dk3, dn3 in (b.defs.get(l_) or []):
+                                if dk3 != "assign":
+                                    continue
+                                for m_ in re.finditer(r'"(?:mv|cp)": \[(\d+), \[\]\]', _json.dumps(dn3["rv"])):
+                                    x_ = int(m_.group(1))
+                                    if x_ not in flows:
+                                        flows.add(x_)
+                                        work.append(x_)
+                        returned = base in flows
+                        if kind in ("whole", "prefix") and not created_in_loop and returned:
+                            ctx.fail(o, s_, "%s: read_exact inside a loop targets %s of a buffer that is created outside the loop: every iteration overwrites the same bytes - "
+                                     "a value longer than one chunk decodes to its last chunk followed by padding, with the right length and no error" % (b.name, "the whole" if kind == "whole" else "a prefix range (`[..n]`)"))
+                        break
+                    cur = base
+                    continue
+                if rv["k"] in ("use", "cast"):
+                    cur = op_local(rv["op"])
+                    continue
+                break
+    o.sites = n
+    if n < 4:
+        ctx.fail(o, "(program)", "expected >= 4 read_exact sites (byte, raw bytes, f32, f64), found %d" % n)
+    o2 = ctx.ob("C12.l", "read_raw_bytes/buffer-sized-by-the-requested-length", "K5", "when read_raw_bytes allocates its buffer in one go, the length is its `len` parameter")
+    bs = prog.find(r"PostcardDecoder as Decoder>::read_raw_bytes$")
+    if len(bs) != 1:
+        ctx.fail(o2, "(program)", "anchor missing: <PostcardDecoder as Decoder>::read_raw_bytes (found %d)" % len(bs))
+        return
+    b = ctx.touch(bs[0])
+    for s_ in b.calls_to(r"vec::from_elem$"):
+        o2.sites += 1
+        org = df.origins_of_operand(b, s_.node["args"][1])
+        if not any(x.kind == "param" and str(x.info) == "_2" for x in org):
+            ctx.fail(o2, s_, "read_raw_bytes allocates a buffer whose length is not the requested `len`: the bytes of the value are cut or padded")
+
+
 def c12i(ctx, prog):
     """A ring buffer's storage is two slices whose split point depends on the deque's history.  An encoder (or decoder)
     that looks at the storage through as_slices() must consume BOTH halves; writing `as_slices().0` alone is a valid,
@@ -559,6 +642,7 @@ def run(ctx):
     ctx.run_clause("C12.i", lambda c: c12i(c, prog))
     ctx.run_clause("C12.j", lambda c: c12j(c, prog))
     ctx.run_clause("C12.k", lambda c: c12k(c, prog))
+    ctx.run_clause("C12.l", lambda c: c12l(c, prog))
     # the derive macros: their fixtures live in the serializer's unit-test module (unit/tuple/named structs, enums with
     # unit/tuple/struct variants, generics, #[serialize(skip)]); analysed, never run
     def fixtures(c):
@@ -575,8 +659,11 @@ def run(ctx):
     # interned handles are stateful on the wire (first occurrence in full, later ones by reference): their
     # encoder/decoder agreement is C15.c's rule, evaluated here as C12.f
     from . import C15
-    ctx.alias = {"C15.c": "C12.f"}
+    ctx.alias = {"C15.c": "C12.f", "C15.a": "C12.f"}
     ctx.run_clause("C12.f", C15.c15c)
+    # a decoded Source registers the value with the interner so that later References resolve: the registration itself
+    # (double-checked insertion that replaces a dead weak entry) is C15.a's rule
+    ctx.run_clause("C12.f", C15.c15a)
     ctx.alias = {}
     def varint_witness(c):
         """E4: rustc const-evaluates the crate's own (private, const) varint and zig-zag helpers on every power-of-two
